@@ -788,6 +788,9 @@ def main(tier="quick", seed=0, procs=None, only=None):
         native_part(run)
         dtype_mixed_part(run)
         process_state_part(run)
+        from ..rtc import flagindep
+        from ..catalog import tensor_ops
+        flagindep.run_part(run, tensor_ops.all_cases("quick"))
         selftest(run)
     except Exception as e:
         run.error("native part / self-test failed", e)
